@@ -333,7 +333,11 @@ def run(tier, workers=None):
         "cases": tot["cases"], "names": len(nm), "names_refused_by_server": tot["names_refused"], "listings_checked": tot["listings"],
         "layouts": ["%s %s" % l for l in layouts], "configs": [c.label for c in cfgs], "requests_executed": tot["requests"], "exhaustive": True,
     }
+    from . import sizes
+
+    cov.update(sizes.run_sweep(rep, "C16", ['listing']))
     return rep.finish("exploration", cov, assumptions=[
+        "size sweep: the collection is grown member by member to 140 and the same view is checked at every size up to 8 and around 16, 32, 64, 100 and 128",
         "an emitted href is resolved against the request URL as RFC 3986 says (urljoin) and sent byte-for-byte as the request target; through WSGI the path is percent-decoded once into PATH_INFO as a WSGI server does",
         "':' in names is outside the property's character set and is not generated",
         "names the server refuses (non-success PUT/MKCOL) are counted, not judged",
